@@ -1,7 +1,7 @@
 (* Property C20 — every element is typeable in one byte per character and reachable.
    Only statements, each closed by `exact`, each followed by Print Assumptions. *)
 From Coq Require Import List NArith ZArith Bool.
-From Vy Require Import Model.Base Model.Lexer Model.Encoding Proofs.C20Proofs
+From Vy Require Import Model.Base Model.Lexer Model.Parser Model.Encoding Proofs.C20Proofs
   Gen.Codepage Gen.ParserConsts Gen.Elements Gen.Yaml Gen.Known.
 Import ListNotations.
 Open Scope N_scope.
